@@ -321,6 +321,16 @@ int main(int argc, char **argv) {
         puts(s.c_str());
         return 0;
     }
+    if (mode == "describe") {
+        // plan JSON on stdin -> the same plan with human-readable operations
+        char *buf = nullptr;
+        size_t cap = 0;
+        ssize_t n = getline(&buf, &cap, stdin);
+        sim::Plan p;
+        if (n <= 0 || !plan_from_json(std::string(buf, (size_t)n), p)) return 2;
+        puts(plan_json(p, false, true).c_str());
+        return 0;
+    }
     if (mode == "gen") {
         sim::Plan p;
         g_h->gen(seed, tier, p);
